@@ -363,11 +363,15 @@ func rewoundIteratorCheck(build func() Inst, st *Stats, props []string, pairsUpT
 		}, props, "re-positioned iterator after a modification")
 	}
 	ops := b0.Ops()
+	positions := intRange(0, n+1)
+	if n > 12 { // large containers: the earlier positions {0, 1, middle, n-1, n, n+1}
+		positions = litePositions(n + 1)
+	}
 	for _, o := range ops {
 		if o.N == "New" {
 			continue // a constructor call makes another container
 		}
-		for k := 0; k <= n+1; k++ {
+		for _, k := range positions {
 			for _, fromEnd := range []bool{false, true} {
 				if v := one([]Op{o}, k, fromEnd); v != nil {
 					return v
